@@ -1,13 +1,16 @@
 #!/venv/bin/python
-"""tools/tie_selftest.py [name-fragment ...] — self-test of the source-derived tie (harness/srctie.py), never a registered command.
+"""tools/tie_selftest.py [name-fragment ...] — self-test of the source-derived tie (harness/srctie.py for C04,
+harness/srctie_pop.py for C05), never a registered command.
 
-Runs every selftest/C04_tie_*.diff through tools/mutant_check.sh (a throw-away patched copy of chi, CHI_SRC) and checks
-* `C04_tie_rewrite_*`: no VIOLATION, and every kernel's tie is `proved (generated definition unchanged)` or
+Runs every selftest/C04_tie_*.diff against `./check C04` and every selftest/C05_tie_*.diff against `./check C05` through
+tools/mutant_check.sh (a throw-away patched copy of chi, CHI_SRC) and checks
+* `*_tie_rewrite_*`: no VIOLATION, and every kernel's tie is `proved (generated definition unchanged)` or
   `re-proved for the rewritten source` (exception: `*untraceable*` — the named construct must be REPORTED as
   untraceable in the evidence and still no VIOLATION);
-* `C04_tie_mutant_*`: a VIOLATION with a concrete failing input (a replay file, not `no-failing-input-found`), and the
+* `*_tie_mutant_*`: a VIOLATION with a concrete failing input (a replay file, not `no-failing-input-found`), and the
   special-cased region is named under `source_tie_info.unexpected_guards`.
-Finally the clean check is run again so that evidence/C04.json is the clean tree's."""
+Finally the clean checks are run again (evidence/C04.json, evidence/C05.json are the clean tree's; runs on patched
+copies write to .work/)."""
 import collections
 import json
 import os
@@ -17,24 +20,27 @@ import sys
 import time
 
 here = os.path.dirname(os.path.dirname(os.path.abspath(__file__)))
-names = sorted(n for n in os.listdir(os.path.join(here, 'selftest')) if re.match(r'C04_tie_.*\.diff$', n))
+N_KERNELS = {'C04': 21, 'C05': 40}
+names = sorted(n for n in os.listdir(os.path.join(here, 'selftest')) if re.match(r'C0[45]_tie_.*\.diff$', n))
 if sys.argv[1:]:
     names = [n for n in names if any(a in n for a in sys.argv[1:])]
 bad = 0
+ids = sorted(set(n[:3] for n in names))
 for n in names:
+    pid = n[:3]
     t0 = time.time()
     env = dict(os.environ, SKIP_BASELINE='1', TAILN='40')
-    out = subprocess.run([os.path.join(here, 'tools', 'mutant_check.sh'), os.path.join(here, 'selftest', n), 'C04'],
+    out = subprocess.run([os.path.join(here, 'tools', 'mutant_check.sh'), os.path.join(here, 'selftest', n), pid],
                          capture_output=True, text=True, env=env).stdout
     viol = [ln for ln in out.splitlines() if ln.startswith('VIOLATION')]
     concrete = [ln for ln in viol if 'no-failing-input-found' not in ln]
-    cov = json.load(open(os.path.join(here, '.work', 'C04.json')))['coverage']   # runs on patched copies write to .work/
+    cov = json.load(open(os.path.join(here, '.work', pid + '.json')))['coverage']   # runs on patched copies write to .work/
     tie = cov.get('source_tie', {})
     info = cov.get('source_tie_info', {})
     kinds = collections.Counter('proved unchanged' if v.startswith('proved') else 're-proved' if v.startswith('re-proved')
                                 else 'not established' for v in tie.values())
     if 'rewrite' in n:
-        ok = not viol and len(tie) == 21
+        ok = not viol and len(tie) == N_KERNELS[pid]
         if 'untraceable' in n:
             ok = ok and any('untraceable' in v for v in tie.values())
         else:
@@ -48,6 +54,9 @@ for n in names:
     if not ok:
         print(out[-1500:])
         print({k: v[:160] for k, v in tie.items() if v.startswith('not')})
-r = subprocess.run([os.path.join(here, 'check'), 'C04'], capture_output=True, text=True)
-print('clean tree: exit %d  %s' % (r.returncode, r.stdout.strip().splitlines()[-1][:200]))
-sys.exit(1 if bad or r.returncode else 0)
+rc = 0
+for pid in ids:
+    r = subprocess.run([os.path.join(here, 'check'), pid], capture_output=True, text=True)
+    print('clean tree: %s exit %d  %s' % (pid, r.returncode, r.stdout.strip().splitlines()[-1][:200]))
+    rc = rc or r.returncode
+sys.exit(1 if bad or rc else 0)
